@@ -229,6 +229,10 @@ class TupleNode(Node):
 
         if self.isnamedtuple(cls):
             return cls(*content)
+        if cls is not tuple:
+            # any other subclass of tuple is built from its items, like
+            # subclasses of list and set are
+            return cls(content)
         return content
 
     def isnamedtuple(self, t) -> bool:
